@@ -32,6 +32,7 @@ def main():
     ap.add_argument('--checks', nargs='*', default=['all'])
     ap.add_argument('--name')
     ap.add_argument('--src')
+    ap.add_argument('--tier', default='quick')
     a = ap.parse_args()
     src = a.src or '/tmp/seed-%s/out' % a.pid
     patch = os.path.join(src, 'change%s.diff' % a.n)
@@ -72,13 +73,13 @@ def main():
         caught = {}
         for c in checks:
             t0 = time.time()
-            r = sh('cd /verif && /venv/bin/python -m mc %s --tier quick' % c, env=env)
+            r = sh('cd /verif && /venv/bin/python -m mc %s --tier %s' % (c, a.tier), env=env)
             sigs = [l.split('signature=')[1].split(' cases=')[0] for l in r.stdout.splitlines() if l.startswith('VIOLATION') and 'signature=' in l]
             if r.returncode == 1:
                 caught[c] = sigs[:4]
             elif r.returncode != 0:
                 caught[c] = ['exit=%d %s' % (r.returncode, r.stdout.strip()[-300:])]
-            meta['ran'].append('python -m mc %s --tier quick -> exit %d (%.0fs)' % (c, r.returncode, time.time() - t0))
+            meta['ran'].append('python -m mc %s --tier %s -> exit %d (%.0fs)' % (c, a.tier, r.returncode, time.time() - t0))
         meta['caught_by'] = caught
         print('CAUGHT-BY:', json.dumps(caught)[:1500] if caught else 'none')
         dest = os.path.join('/verif/seeded', name)
